@@ -4,12 +4,14 @@ FUNCTIONS = [('devices', 'ADC'), ('utils', 'shortest_int')]
 BOUNDS = {'shortest_int': 'every real data vector (ties allowed) of length 2..5 (quick) / 2..7 (thorough), every lag in 1..len-1 '
                           '(percentages chosen so that floor(p*len/100) takes each value)',
           'ADC': 'records whose 99.99% shortest interval is [V_min, V_max] (symbolic, V_min < V_max); 1..3 arbitrary samples of it '
-                 '(at most 2 outside the interval, as the 0.01% tail of a 20001-sample record allows); n in {1,2,3} with symbolic V_max, n in {8,12} with V_max - V_min in {1, 0.37}; both otype values. '
+                 '(at most 2 outside the interval, as the 0.01% tail of a 20001-sample record allows); n in {1,2,3} with symbolic V_max, n = 8 (thorough: also 10, one sample; 12-bit obligations exceed the 240 s query budget) with V_max - V_min in {1, 0.37}; both otype values. '
                  'Symbolically shortest_int is replaced by its contract (returns that interval); concrete validation/replay runs use a '
                  '20001-sample record and the real shortest_int.',
           'ADC short records': 'length 2..4 with the real shortest_int in the loop (interval = [min, max])'}
 OUTSIDE = ['data lengths above the bound for the minimal-interval clause', 'percentages with floor(p*len/100) = 0 (empty lag; the code has no such caller)',
-           'the fs (resampling) option of ADC: scipy.signal.resample is outside the model']
+           'the fs (resampling) option of ADC: scipy.signal.resample is outside the model',
+           'records stored in a narrow integer dtype (int8/int16/int32): the model keeps mathematical integers, so machine-width wrap-around '
+           'inside ADC arithmetic is not represented (float and int64 records are)']
 ASSUMPTIONS = ['floor(len*p/100) is evaluated exactly; for the percentages used the double evaluation agrees (checked in the validation runs)',
                'ADC symbolic runs: shortest_int(record, 99.99) returns the record\'s shortest 99.99% interval (its own clause, decided separately)']
 LIMITS = {'max_paths': 4000, 'max_branches': 800}
@@ -174,12 +176,12 @@ def configs(tier):
             out.append((f'shortest-n{n}-lag{lag}', scen_shortest, dict(n=n, lag=lag, p=repr(p)), {}))
             if n <= (5 if q else 6):
                 out.append((f'shortest-quantised-n{n}-lag{lag}', scen_shortest, dict(n=n, lag=lag, p=repr(p), ints=True), {}))
-    for nb in ((1, 3, 8) if q else (1, 2, 3, 8, 12)):
+    for nb in ((1, 3, 8) if q else (1, 2, 3, 8, 10)):
         for otype in ('n', 'v'):
             for m in ((1, 2) if q else (1, 2, 3)):
                 if nb <= 3:
                     out.append((f'adc-long-{nb}bit-{otype}-m{m}', scen_adc_long, dict(m=m, bits=nb, otype=otype, noise=False), {'validate': 1}))
-                else:
+                elif nb <= 8 or m == 1:          # 10-bit obligations take ~90 s of solver time per sample: one sample is enough (samples are independent)
                     for wd in ('1', '0.37'):
                         out.append((f'adc-long-{nb}bit-{otype}-m{m}-width{wd}', scen_adc_long,
                                     dict(m=m, bits=nb, otype=otype, noise=False, width=wd), {'validate': 1}))
